@@ -4,6 +4,7 @@ import torch
 from torch.autograd import Function
 
 from linear_operator import settings
+from linear_operator.utils import _verif
 from linear_operator.utils.cholesky import psd_safe_cholesky
 from linear_operator.utils.permutation import apply_permutation, inverse_permutation
 
@@ -97,7 +98,16 @@ class PivotedCholesky(Function):
                 # Keep track of errors - for potential early stopping
                 errors = torch.norm(matrix_diag.gather(-1, pi_i), 1, dim=-1) / orig_error
 
+            if _verif.ENABLED:
+                _verif.emit(
+                    "pchol.iter", m=m, pivot=pi_m, pivot_value=max_diag_values, matrix_diag=matrix_diag,
+                    permutation=permutation, errors=errors, error_tol=error_tol, max_iter=max_iter,
+                )
+
             m = m + 1
+
+        if _verif.ENABLED:
+            _verif.emit("pchol.end", rank=m, max_iter=max_iter, error_tol=error_tol, errors=errors)
 
         # Save items for backward pass, and return output
         ctx.save_for_backward(permutation, permutation[..., :m], *matrix_args)
